@@ -150,3 +150,43 @@ pub fn run(env: &Env, replay: Option<&Path>) -> i32 {
     report.merge(side);
     finish(env, report, &META)
 }
+
+/// `fvh hunt-c04 <n> <first> <count>`: seeds for which some candidate (f, g) of the key generator's
+/// loop has a squared Gram-Schmidt norm within 1.0 of the acceptance bound 1.17^2 q (on either
+/// side). Such seeds are where the acceptance test's comparison matters; found seeds go to the corpus.
+pub fn hunt(n: usize, first: u64, count: u64) {
+    use falcon_rust::verif_hooks::keygen_parts as kp;
+    use rand::SeedableRng;
+    let bound = 1.3689f64 * 12289.0;
+    let lim = (1i64 << (params(n).fg_bits - 1)) - 1;
+    let next = std::sync::atomic::AtomicU64::new(0);
+    std::thread::scope(|sc| {
+        for _ in 0..16 {
+            sc.spawn(|| loop {
+                let i = next.fetch_add(1, std::sync::atomic::Ordering::Relaxed);
+                if i >= count {
+                    break;
+                }
+                let seed = crate::util::seed32(0xC04_0000_0000 + first + i);
+                let mut rng = rand::rngs::StdRng::from_seed(seed);
+                for _ in 0..200 {
+                    let f = kp::gen_poly(n, &mut rng);
+                    let g = kp::gen_poly(n, &mut rng);
+                    if f.iter().chain(g.iter()).any(|x| (*x as i64).abs() > lim) {
+                        continue;
+                    }
+                    if zq::evaluate_at_roots(&crate::util::to_i64(&f)).iter().any(|&x| x == 0) {
+                        continue;
+                    }
+                    let gamma = kp::gram_schmidt_norm_squared(&f, &g);
+                    if (gamma - bound).abs() < 1.0 {
+                        println!("{} {} {:.4} {}", n, crate::util::hex(&seed), gamma, if gamma > bound { "narrowly-rejected" } else { "narrowly-accepted" });
+                    }
+                    if gamma <= bound {
+                        break; // the key generator goes on to solve the NTRU equation here
+                    }
+                }
+            });
+        }
+    });
+}
